@@ -88,6 +88,28 @@ func (idx *BigIndexWriter) AddRow(values map[string]string) (uint32, error) {
 	return rowID, nil
 }
 
+// Close releases the temporary database's write transaction if the writer is
+// abandoned without Flush (e.g. because reading the input failed). Without it,
+// closing the temporary database blocks forever waiting for that transaction.
+// Calling Close after Flush is a no-op.
+func (idx *BigIndexWriter) Close() error {
+	idx.mtx.Lock()
+	defer idx.mtx.Unlock()
+
+	if idx.tempTx == nil {
+		return nil
+	}
+
+	err := idx.tempTx.Rollback()
+	idx.tempTx = nil
+
+	if err == bbolt.ErrTxClosed {
+		return nil
+	}
+
+	return err
+}
+
 func (idx *BigIndexWriter) Flush() error {
 	if err := idx.tempTx.Commit(); err != nil {
 		return fmt.Errorf("failed to commit: %w", err)
